@@ -117,6 +117,24 @@ class Ctx:
             self.fail(rule, instance, where, why, construct=construct, stmt=stmt)
         return bool(cond)
 
+    def soft(self, rule_fn, *args, **kwargs):
+        """Run one rule; an analysis error in it is deferred so that the remaining rules (and the shared
+        premises) still run: a violation any of them establishes must not be hidden by a rule that lost its
+        footing on the same change.  With no violation at the end, the first deferred error is raised (exit 2)."""
+        if not hasattr(self, "deferred"):
+            self.deferred = []
+        try:
+            return rule_fn(self, *args, **kwargs)
+        except AnalysisError as e:
+            self.deferred.append(e)
+            self.note("rule %s could not be analysed: %s" % (getattr(rule_fn, "__name__", rule_fn), str(e)[:300]))
+            return None
+        except Exception as e:  # noqa: BLE001 - a rule that depends on the result of a deferred one
+            if not self.deferred:
+                raise
+            self.deferred.append(AnalysisError("%s failed after an earlier rule could not be analysed: %s: %s" % (getattr(rule_fn, "__name__", rule_fn), type(e).__name__, e)))
+            return None
+
     # ---- finishing ---------------------------------------------------------
     def instance_counts(self):
         counts = {}
@@ -126,6 +144,8 @@ class Ctx:
 
     def finish(self):
         counts = self.instance_counts()
+        if getattr(self, "deferred", None) and not self.violations:
+            raise self.deferred[0]
         for rule, mn in self.rule_min.items():
             # a recorded violation stands on its own; the vacuity guard is for runs that report none
             if counts.get(rule, 0) < mn and not self.violations:
